@@ -55,7 +55,7 @@ _always_unsafe = bytes((*range(0x21), 0x25, 0x7F)).decode()
 _unquote_fragment = _make_unquote_part("fragment", _always_unsafe)
 _unquote_query = _make_unquote_part("query", _always_unsafe + "&=+#")
 _unquote_path = _make_unquote_part("path", _always_unsafe + "/?#")
-_unquote_user = _make_unquote_part("user", _always_unsafe + ":@/?#")
+_unquote_user = _make_unquote_part("user", _always_unsafe + ":@/?#[]")
 
 
 def uri_to_iri(uri: str) -> str:
